@@ -12,15 +12,17 @@ NOTE = ("Trusted: Coq 8.16.1 kernel (+vm_compute), extraction with ExtrOcamlBasi
 
 CHECKS = {
     'C01': dict(
-        text="Coq theorems about the Gallina models of tokenizer, parser and converter: (string level) for EVERY text of letter names "
-             "separated by > + and runs of ^, tokenize+parse yields a tree whose preorder (depth, name) list is the denotation of the "
-             "operators; (token level) the same for all flat statements and for statements with groups ( ... )*N nested to any depth "
-             "(mutual induction); convert_shape: the unrolled forest has the denoted depth list and every written element times the "
-             "repeat counts around it; implicit-name decision rule over the table regenerated from the source. _partial: the "
-             "formatter's tag events and the composition into one expand theorem are covered by the whole-pipeline "
-             "model/implementation correspondence and by an independent denotation oracle on expand() output.",
-        technique="Coq proof by induction over statements/units with a parser-spine invariant, tokenizer step lemmas, converter unrolling spec + generated ELEMENT_MAP table + whole-pipeline model/implementation correspondence and denotation oracle",
-        ref="DESIGN.md §5 C01"),
+        text="Coq theorems about the whole expand model at STRING level (props/C01Expand.v): for every text of names separated by > + "
+             "and runs of ^, with *N on elements and with nested groups ( ... )*N, and every configuration of a stated clean domain "
+             "(HTML-family formatter, comments off, no wrap text, names not snippet keys / lorem; formatting on or off, every "
+             "self-closing style), expand_markup succeeds and its tag chunks nest to exactly the denoted (depth, name) list: every "
+             "written element once per repetition, in document order, with its own name. Built from: tokenizer step lemmas, parser "
+             "spine invariant (flat and groups), converter unrolling spec, snippet/transform identity on plain names, format_events. "
+             "Implicit-name decision rule proved over the table regenerated from the source (composition for nameless elements: "
+             "correspondence + oracle). Whole-pipeline model/implementation correspondence and an independent denotation oracle "
+             "on expand() output cover attributes, snippets, wrap text and the remaining configurations.",
+        technique="Coq proof: end-to-end composition (tokenizer, parser spine by mutual induction over statements and groups, converter unrolling, resolve/transform identity, formatter tag events) + generated ELEMENT_MAP table + whole-pipeline model/implementation correspondence and denotation oracle",
+        ref="DESIGN.md §5 C01, §10"),
     'C02': dict(
         text="Coq theorems for all token trees (without $# / implicit *): convert equals a pure unrolling spec with a budget "
              "(C02_limit_full, closed form of maxRepeat), exactly N consecutive copies indexed in order, counters of the nearest "
@@ -46,14 +48,44 @@ CHECKS = {
              "whole punctuation alphabet and wrap-line lists.",
         technique="Coq proof by induction over the payload (tokenizer literal scanner with brace depth) and over converted forests + model/implementation correspondence and payload oracle",
         ref="DESIGN.md §5 C04"),
+    'C05': dict(
+        text="Coq theorems about the stylesheet pipeline model: end-to-end value_seq_expand from the STRING (numbers and colours of any "
+             "length with the statement's connectors, +-joined properties, trailing !), hex round trip and short-hex iff (complete "
+             "per-channel sweep), the four hex forms, alpha -> rgba with canonical decimals, unit decision rule, dash rule on the tokenizer "
+             "step, important rule, line shape; every built-in property key satisfies the theorem's hypothesis (sweep). Independent "
+             "oracle re-states the value rules over a product grammar x syntaxes x unit/shortHex options; colour value never changes.",
+        technique="Coq proof (tokenizer/parser/resolver/formatter composition over value sequences, complete finite sweeps for channels and alpha digits) + generated snippet/option tables + in-Coq model evaluation compared with the implementation",
+        ref="DESIGN.md §5 C05",
+        note=NOTE + " Theorems that mention the scorer or the configuration record list the kernel primitives PrimFloat.* / PrimInt63.* under Print Assumptions (declared Primitive, not axioms)."),
+    'C06': dict(
+        text="Coq theorems: keys_reach_self as a COMPLETE vm_compute sweep over every key of the regenerated built-in table (matcher selects "
+             "the key's own snippet, output is its property + first value/tabstop or raw body), keywords_resolve sweep over every "
+             "(snippet, letters-only keyword) in five letter cases, keyword_any_case for all tables, score_case_invariant for all "
+             "strings (PrimFloat, bit-exact), exact_key_wins for all tables, user_overrides, scope filters. One listed finding "
+             "(keywords containing a digit). Oracle over every key/keyword x syntax x scope and random user tables.",
+        technique="Coq proof + complete finite sweeps over the generated snippet table (PrimFloat scorer evaluated by vm_compute) + in-Coq model evaluation compared with the implementation",
+        ref="DESIGN.md §5 C06",
+        note=NOTE + " Theorems that mention the scorer list the kernel primitives PrimFloat.* / PrimInt63.* under Print Assumptions (declared Primitive, not axioms)."),
     'C07': dict(
         text="Coq theorems for the markup model: for ALL abbreviations and ALL configurations with well-formed snippet tables expand_markup "
              "returns Ok or a Scanner/Token parse error with 0 <= pos <= length, never Internal, never OutOfFuel (tokenize_safe, "
              "parser_safe for all token lists, convert_safe, resolve_safe with tight fuel bound, complete sweep of the regenerated "
-             "built-in tables). Stylesheet half, BEM, lorem text and CPython's recursion limit are implementation-oracle only "
-             "(exhaustive short strings, random and mutated abbreviations, random option sets); two listed recursion-limit findings.",
+             "built-in tables), including the BEM addon (bem never raises; bem.enabled configurations are inside C07_expand_safe); the same "
+             "for the stylesheet model (C07_css_expand_safe, parser over all token lists with fuel adequacy). "
+             "Lorem text, markup.href rewriting and CPython's recursion limit are implementation-oracle only (exhaustive short strings, random and "
+             "mutated abbreviations, random option sets); two listed recursion-limit findings.",
         technique="Coq proof stage-wise (tokenizer, parser over all token lists, converter, snippet resolution with fuel bound, composition) + complete vm_compute sweep of generated snippet tables + exhaustive short-string outcome-class correspondence",
         ref="DESIGN.md §5 C07"),
+    'C08': dict(
+        text="Coq theorems over a state-machine model of the library state that survives a call (caller text slot, cache dicts, BEM "
+             "default dict), for every history length, every world (pure pipeline parts abstract) and every probe: history_independent, "
+             "every_call_independent, caller_cfg_preserved, cache_transparent, cache_entries_valid (inductive invariant), no_growth; "
+             "one refutation per pre-repair defect switch. Tied to the code by per-call state correspondence and by running the history "
+             "model over the real markup and stylesheet models. Oracle: random histories followed by a probe compared with the same call "
+             "in a fresh interpreter process; caller dict deep-equality; sizes of module containers and function defaults; gc-based "
+             "reachability is support, not proof.",
+        technique="Coq proof of an inductive invariant over fold_left step on a history state machine + model/implementation state correspondence + fresh-interpreter differential oracle",
+        ref="DESIGN.md §5 C08"),
     'C09': dict(
         text="Coq theorems: match/balanced_outward/balanced_inward as folds over scanner events return the innermost element, the "
              "enclosing chain and the first-child chain for every well-nested forest (unbounded), attribute ranges are exact; "
@@ -78,6 +110,24 @@ CHECKS = {
              "tag proved for abbreviations free of the three listed finding shapes (_partial), with refutation witnesses for those shapes.",
         technique="Coq proof by induction over the backward scan with bracket stack + generated char tables + model/implementation correspondence",
         ref="DESIGN.md §5 C11"),
+    'C12': dict(
+        text="Coq theorems about the HTML formatter model: format_cosmetic (for all trees, two option records differing only in the "
+             "formatting options give equal content: relational induction), level_is_depth and per-element line-break indentation "
+             "(_partial: no single statement over every line-break chunk; push_snippet path), comments_additive (_partial: position "
+             "of the comment not expressed), selfclose_local (_partial: compactBoolean off; refuted with it on = listed finding), "
+             "level_restored. Oracle: same abbreviation under two option sets compared after stripping inter-tag whitespace; "
+             "indentation of every line vs open elements; comments; self-closing styles; html/xml/xsl/jsx/vue/svelte. Two listed findings.",
+        technique="Coq proof by relational induction over the tree (two runs, related streams) and level invariants + callback-event correspondence with the implementation + two-option-set oracle",
+        ref="DESIGN.md §5 C12"),
+    'C13': dict(
+        text="Coq theorems: every stream produced by the HTML and indent formatters is built from the stream primitives (reachability), "
+             "and for every reachable stream every callback event sits at exactly the offset, line and column it reports in the final "
+             "string (callback_positions_exact; any newline string: relative to the stream's own line ends); tabstops_in_order for "
+             "trees without explicit fields (HTML and haml/pug/slim), explicit fields keep relative order and are disjoint across values, "
+             "field counter monotone. Stylesheet formatter: covered by the stream theorem and the oracle. Oracle checks every callback "
+             "invocation against the final string (markup and stylesheet syntaxes, \n / \r\n / custom newlines, indent, baseIndent).",
+        technique="Coq proof of a stream-position invariant over all operation sequences + reachability of formatter streams by induction over the tree + callback-event correspondence and position oracle",
+        ref="DESIGN.md §5 C13"),
     'C14': dict(
         text="Coq theorems: snippet resolution never runs out of fuel with the fuel markup_parse supplies (pigeonhole on the duplicate-free "
              "stack), nesting depth <= |snippets|, for ALL tables incl. self-referencing and mutually recursive ones; alias_merge on "
@@ -102,10 +152,13 @@ CHECKS = {
         technique="Coq proof by structural induction over the input (skip-counter scanner models) and over event lists + exhaustive short-string correspondence",
         ref="DESIGN.md §5 C16"),
     'C17': dict(
-        text="Coq theorems: get_open_tag soundness/completeness, next/previous item selection and selection-model ranges for HTML; "
-             "get_css_section, direct declarations with name/value/token/before/after offsets, select_item_css ranges for CSS, over the "
-             "event/token models; tied by correspondence on generated documents with ground truth at every position. One known finding "
-             "(brace-terminated declaration full range).",
+        text="Coq theorems, all full: select_item_html as an EQUATION for every string, position and direction (tag-name range, per "
+             "attribute full range, unquoted value, class words with de-duplication), get_open_tag as an equation; on TEXT of the "
+             "C09/C10 level-B grammars: select_item_html / get_open_tag return the tags of the document's own record with ranges "
+             "slicing exactly to the written names, attributes, values and class tokens; get_css_section returns the innermost rule "
+             "and its direct declarations with exact name/value/before/after offsets; select_item_css equals the tree spec. Tied by "
+             "correspondence on generated documents with ground truth at every position. One known finding (brace-terminated "
+             "declaration full range).",
         technique="Coq proof over scanner-event and attribute-token models + model/implementation correspondence on generated documents with ground truth",
         ref="DESIGN.md §5 C17"),
     'C18': dict(
